@@ -187,10 +187,10 @@ PROPS["C19"] = {
     "rule": "operation programs over {filter(v), clone, reset, guts round trip, drop} on a pool that starts with one fresh instance: every program of length <= 5 (<= 6 thorough) over the five operations for the 7 filter kinds and widths 1..3 (1..4), plus seeded random programs of 10..60 (..200) operations for widths 1..6; after every operation the number of live Tok values in the harness's ledger is compared with the model's sum of owned values; the ledger flags any drop or use of a value that is not live; at the end everything is dropped and the live count must be 0; non-trivial = the program clones and also drops or resets an instance and is longer than the window (Check/C19.v)",
     "trusted": ["harness/src/tok.rs: instrumented sample type (unique serial per value, thread-local ledger; arithmetic creates fresh values)", "a Gallina model has no memory: undefined behaviour itself (uninitialised read, real double free) cannot be exhibited; a crash of the harness is reported as a violation without a minimal input"],
     "assumptions": ["N >= 1"],
-    "explanation": "PARTIAL. Proved in Coq (for all widths and histories): how many sample values each windowed filter owns after any history (median: min(k,N); mean: min(k,N) taps + sum + weight; min/max deque: between 1 and N; convolution: N coefficients + N taps; delay: N), the ledger arithmetic of clone/reset/guts/drop on a pool, that nothing is live once every slot is dropped, and that the MaybeUninit initialisation loop of Median::default writes every slot exactly once before the array is read. Tied to the code by running the real filters over an instrumented owning sample type and comparing the live-value count after EVERY operation with the model; leaks, double drops and use-after-drop show up as a wrong count or a ledger anomaly. Not covered: undefined behaviour that does not change these counts.",
+    "explanation": "PARTIAL. Proved in Coq (for all widths and histories): how many sample values each windowed filter owns after any history (median: min(k,N); mean: min(k,N) taps + sum + weight; min/max deque: between 1 and N; convolution: N coefficients + N taps; delay: N), the ledger arithmetic of clone/reset/guts/drop on a pool, that nothing is live once every slot is dropped, and that the MaybeUninit initialisation loop of Median::default writes every slot exactly once before the array is read. Tied to the code by running the real filters over an instrumented owning sample type and comparing the live-value count after EVERY operation with the model; leaks, double drops and use-after-drop show up as a wrong count or a ledger anomaly. Not covered: undefined behaviour that does not change these counts. Added in the third session: the unsafe surface of the seven source files is pinned by source assertions (no unsafe block other than plain calls of the receiver's own methods outside Median::default, no raw-pointer, MaybeUninit, forget/ManuallyDrop/leak-like token beyond the audited ones) and the method bodies behind the median's `unsafe fn` helpers are re-translated and kernel-checked against the model on every run, so that outside the one audited initialisation loop the exactly-once discipline is rustc's ownership checking of safe code.",
     "level_text": "Partial (level other): ownership bookkeeping proved in Coq for all widths/histories and compared with an instrumented sample type's ledger after every operation of exhaustive short and random long operation programs; undefined behaviour itself is outside what a Gallina model can express.",
     "level_note": "Trusted: Coq kernel/vm_compute; Model/Ledger.v validated on explored programs; the instrumented Tok type and its ledger; no sanitizer/Miri run is part of the registered commands.",
-    "technique": "Coq theorems about an ownership-count model + differential execution against an instrumented sample type (partial: memory safety itself is not expressible)",
+    "technique": "Coq theorems about an ownership-count model + source assertions pinning the audited unsafe surface and kernel-checked re-translation of the windowed filters' bodies + differential execution against an instrumented sample type with fault injection (partial: memory safety itself is not expressible in Gallina)",
 }
 
 # ---- bit-exact float / integer stream (Check/Float.v, harness/src/props/fx*.rs) --------------------------------
